@@ -22,6 +22,7 @@ type Replay struct {
 	MaxConns int               `json:"max_conns,omitempty"`
 	ET       *rh.ETScenario    `json:"exit_transit,omitempty"`
 	OR       *rh.ORScenario    `json:"open_race,omitempty"`
+	UI       *[2]int           `json:"udp_ingress,omitempty"` // (associations, index of the refused one)
 	TD       *rh.TDScenario    `json:"teardown,omitempty"`
 }
 
@@ -59,6 +60,16 @@ func monitorBook(c *vh.Ctx, rp Replay, obs []rh.BObs) {
 			if !prevClosed[s] {
 				newClosed = append(newClosed, s)
 				prevClosed[s] = true
+			}
+		}
+		// whatever the handler answers to an OPEN is addressed to the opener, on the
+		// opener's stream id, and names the opener's request id
+		if op.Op == "open" || op.Op == "openzero" {
+			for _, w := range o.Written {
+				if (w.Kind == "ack" || w.Kind == "err") && (w.Peer != op.Peer || w.ID != op.ID || w.Req != o.ReqID) {
+					c.Fail("open-reply-misaddressed", fmt.Sprintf("%s: step %d: OPEN from peer %d on stream %d with request id %d was answered by %s to peer %d stream %d request %d",
+						rp.Name, i, op.Peer, op.ID, o.ReqID, w.Kind, w.Peer, w.ID, w.Req), rp)
+				}
 			}
 		}
 		sig := rp.Kind + "-cross-tunnel-effect"
@@ -455,6 +466,12 @@ func witnesses() []Replay {
 		{Kind: "forward", Name: "forward-two-peers-same-id", MaxConns: 4, Book: []rh.BOp{
 			{Op: "open", Peer: 1, ID: 1}, {Op: "open", Peer: 2, ID: 1}, {Op: "data", Peer: 1, ID: 1, Serial: 0, Tag: 73},
 			{Op: "open", Peer: 1, ID: 3}, {Op: "open", Peer: 2, ID: 3}, {Op: "destclose", Serial: 2}, {Op: "close", Peer: 2, ID: 3}}},
+		{Kind: "exit", Name: "exit-at-its-connection-limit", MaxConns: 1, Book: []rh.BOp{
+			{Op: "open", Peer: 1, ID: 1}, {Op: "open", Peer: 2, ID: 3}, {Op: "openzero", Peer: 2, ID: 5}, {Op: "data", Peer: 1, ID: 1, Serial: 0, Tag: 81}, {Op: "close", Peer: 1, ID: 1},
+			{Op: "openzero", Peer: 2, ID: 7}}},
+		{Kind: "forward", Name: "forward-at-its-connection-limit", MaxConns: 1, Book: []rh.BOp{
+			{Op: "open", Peer: 1, ID: 1}, {Op: "open", Peer: 2, ID: 3}, {Op: "data", Peer: 1, ID: 1, Serial: 0, Tag: 82}, {Op: "close", Peer: 1, ID: 1},
+			{Op: "openzero", Peer: 2, ID: 7}}},
 		{Kind: "exit", Name: "exit-distinct-ids", MaxConns: 4, Book: []rh.BOp{
 			{Op: "open", Peer: 1, ID: 1}, {Op: "open", Peer: 2, ID: 3}, {Op: "data", Peer: 1, ID: 1, Serial: 0, Tag: 74}, {Op: "data", Peer: 2, ID: 3, Serial: 1, Tag: 75},
 			{Op: "close", Peer: 1, ID: 1}, {Op: "data", Peer: 2, ID: 3, Serial: 1, Tag: 76}, {Op: "destclose", Serial: 1}}},
@@ -552,6 +569,7 @@ func main() {
 	}
 	var etReplay *rh.ETScenario
 	var orReplay *rh.ORScenario
+	var uiReplay *[2]int
 	if c.Replay != "" {
 		var rp Replay
 		if err := c.ReadReplay(&rp); err != nil {
@@ -561,6 +579,8 @@ func main() {
 			etReplay = rp.ET
 		} else if rp.Kind == "openrace" {
 			orReplay = rp.OR
+		} else if rp.Kind == "udpingress" {
+			uiReplay = rp.UI
 		} else {
 			runOne(rp)
 		}
@@ -650,6 +670,30 @@ func main() {
 		}
 	} else if orReplay != nil {
 		runOR(*orReplay)
+	}
+	// UDP ingress bookkeeping: several SOCKS5 UDP associations on the real agent,
+	// one UDP_OPEN refused; the others must stay registered for their replies
+	runUI := func(nAssoc, refuse int) {
+		v := [2]int{nAssoc, refuse}
+		rp := Replay{Kind: "udpingress", Name: fmt.Sprintf("udp-ingress %d associations, open %d refused", nAssoc, refuse), UI: &v}
+		var o rh.UIObs
+		var err error
+		if p := vh.Recover(func() { o, err = rh.RunUDPIngress(nAssoc, refuse) }); p != "" || err != nil {
+			c.Fail("panic", fmt.Sprintf("%s: %s %v", rp.Name, p, err), rp)
+			return
+		}
+		c.Count("udp-ingress")
+		c.Case(rp.Name, true, rp)
+		for _, d := range rh.CheckUDPIngress(o) {
+			c.Fail("udp-ingress-refusal-hits-other-association", rp.Name+": "+d, rp)
+		}
+	}
+	if c.Replay == "" {
+		for _, v := range [][2]int{{3, 2}, {4, 1}, {4, 3}, {5, 2}} {
+			runUI(v[0], v[1])
+		}
+	} else if uiReplay != nil {
+		runUI(uiReplay[0], uiReplay[1])
 	}
 	var sb strings.Builder
 	sb.WriteString("From Coq Require Import List NArith ZArith Bool.\nFrom MM Require Import Model.Relay Model.ExitBook.\nImport ListNotations.\nLocal Open Scope N_scope.\n")
